@@ -57,7 +57,7 @@ type Ctx struct {
 
 	mu        sync.Mutex
 	counters  map[string]int64
-	distinct  map[string]map[uint64]struct{}
+	distinct  map[string]*dset
 	info      map[string]interface{}
 	samples   []interface{}
 	maxSample int
@@ -129,13 +129,54 @@ func (c *Ctx) DistinctH(set string, k uint64) bool {
 	defer c.mu.Unlock()
 	m := c.distinct[set]
 	if m == nil {
-		m = map[uint64]struct{}{}
+		m = &dset{recent: map[uint64]struct{}{}}
 		c.distinct[set] = m
 	}
-	if _, ok := m[k]; ok {
+	return m.add(k)
+}
+
+// dset is an exact set of 64-bit keys that stays compact when it grows to hundreds of millions of entries: recent
+// keys live in a map; when the map reaches dsetSpill entries it is merged into a sorted slice (8 bytes per key,
+// membership by binary search).
+type dset struct {
+	base   []uint64
+	recent map[uint64]struct{}
+}
+
+var dsetSpill = 1 << 21
+
+func (d *dset) size() int64 { return int64(len(d.base) + len(d.recent)) }
+
+func (d *dset) add(k uint64) bool {
+	if _, ok := d.recent[k]; ok {
 		return false
 	}
-	m[k] = struct{}{}
+	if n := len(d.base); n > 0 {
+		if i := sort.Search(n, func(i int) bool { return d.base[i] >= k }); i < n && d.base[i] == k {
+			return false
+		}
+	}
+	d.recent[k] = struct{}{}
+	if len(d.recent) >= dsetSpill {
+		add := make([]uint64, 0, len(d.recent))
+		for x := range d.recent {
+			add = append(add, x)
+		}
+		sort.Slice(add, func(i, j int) bool { return add[i] < add[j] })
+		merged := make([]uint64, 0, len(d.base)+len(add))
+		i, j := 0, 0
+		for i < len(d.base) && j < len(add) {
+			if d.base[i] < add[j] {
+				merged = append(merged, d.base[i])
+				i++
+			} else {
+				merged = append(merged, add[j])
+				j++
+			}
+		}
+		merged = append(append(merged, d.base[i:]...), add[j:]...)
+		d.base, d.recent = merged, map[uint64]struct{}{}
+	}
 	return true
 }
 
@@ -320,7 +361,7 @@ func Main(chk Check) {
 	flag.Parse()
 
 	c := &Ctx{ID: chk.ID, Tier: *tier, Shard: *shard, NShards: *nshards, Seed: *seed, Replay: *replay,
-		counters: map[string]int64{}, distinct: map[string]map[uint64]struct{}{}, info: map[string]interface{}{},
+		counters: map[string]int64{}, distinct: map[string]*dset{}, info: map[string]interface{}{},
 		viol: map[string]*Violation{}, caps: map[string]bool{}, maxSample: 6, start: time.Now(), level: chk.Level, mode: *mode}
 	if *budget > 0 {
 		c.deadline = time.Now().Add(*budget)
@@ -337,7 +378,7 @@ func Main(chk Check) {
 			Exhaustive: len(c.caps) == 0, Rule: c.rule, Assume: c.assume,
 			WallS: time.Since(c.start).Seconds(), EngineErr: engineErr}
 		for k, m := range c.distinct {
-			s.Distinct[k] = int64(len(m))
+			s.Distinct[k] = m.size()
 		}
 		for k := range c.caps {
 			s.Caps = append(s.Caps, k)
